@@ -345,11 +345,15 @@ Proof.
     destruct (luint_sub_Z n _ Kn Km) as [Ksb Vsb]. destruct (luint_to_uint_Z _ Ksb) as [Er _].
     rewrite Er, Vsb, Vm, Vqq, VN.
     pose proof (Z.div_mod N b ltac:(lia)) as EDM. pose proof (Z.mod_pos_bound N b Hb0) as RM.
-    assert (0 <= N / b * b <= N) as Rp by nia.
-    rewrite (Z.mod_small (N / b * b) M128) by (unfold u64 in *; rewrite M128_M64; pose proof M64_pos; nia).
-    replace (N - N / b * b) with (N mod b) by lia.
-    rewrite (Z.mod_small (N mod b) M128) by (unfold u64 in *; rewrite M128_M64; pose proof M64_pos; nia).
-    apply Z.mod_small. unfold u64 in *. lia.
+    assert (0 <= N / b * b <= N) as Rp.
+    { clear - EDM RM Rq Hb0. set (q := N / b) in *. set (rr := N mod b) in *. clearbody q rr. nia. }
+    assert (b < M64) as HbM by (unfold u64 in Hb; lia).
+    assert (N < M128) as RNM by (clear - RN HbM Hb0; rewrite M128_M64; pose proof M64_pos; nia).
+    assert (M64 < M128) as HMM by reflexivity.
+    rewrite (Z.mod_small (N / b * b) M128) by (clear - Rp RNM; lia).
+    replace (N - N / b * b) with (N mod b) by (clear - EDM; lia).
+    rewrite (Z.mod_small (N mod b) M128) by (clear - RM HbM HMM; lia).
+    apply Z.mod_small. clear - RM HbM. lia.
   - intros a b Ha Hb. unfold fixmul. cbv zeta.
     assert (s64 a) as Sa by (unfold s64; lia). assert (s64 b) as Sb by (unfold s64; lia).
     destruct (lsint_from_sint_Z a Sa) as [Ka Va].
